@@ -16,6 +16,19 @@ def obligations(tier):
             unwind_default=lambda p: 3 * p["F"] + 22,
             timeout=900,
             expect_witnesses=["retr", "top", "file_vanished", "retr_dot_line_and_partial_last_line", "top_cut_short", "top_0_header_only"]),
+        Obl("popup", "popup.c",
+            progs=[Prog("qmail-popup.c", main_as="popup_main")],
+            repo=["commands.c", "str_chr.c", "case_diffs.c", "fmt_uint.c", "fmt_ulong.c", "byte_zero.c", "byte_copy.c", "substdio.c",
+                  "stralloc_pend.c", "stralloc_opys.c", "stralloc_opyb.c"],
+            lib=["ideal_substdio.c", "arena_stralloc.c"],
+            defines={"ARENA_CAP": 40, "ARENA_SLOTS": 2},
+            sysrename=["_exit", "close", "pipe", "fork", "execvp", "getpid", "time"],
+            grid=POPUP_QUICK if quick else POPUP_THOROUGH,
+            # strlen: longest constant string is 33 bytes; str_len(pass) on the command buffer stays inside ARENA_CAP
+            unwind={"fmt_ulong": 12, "strlen": 42},
+            unwind_default=lambda p: max(p["L1"] + p.get("L2", 0) + p.get("L3", 0) + 3, 34),
+            timeout=900,
+            expect_witnesses=popup_witnesses),
     ] + [
         Obl(name, "session.c",
             progs=[POP3D],
@@ -24,7 +37,7 @@ def obligations(tier):
             lib=["ideal_substdio.c", "ideal_getln.c", "arena_stralloc.c"],
             defines={"ARENA_CAP": 24, "ARENA_SLOTS": 2},
             sysrename=["_exit", "close", "unlink", "rename"],
-            grid=[{"K": k, "ONLY": v} for k in ks for v in range(10)], std_checks=std, backend="cadical",
+            grid=[g for k in ks for g in session_grid(k)], std_checks=std, backend="cadical",
             # sizes 7 and 120: STAT total <= 127, 3 digits (the unwinding assertion proves it)
             unwind={"fmt_ulong": 5, "scan_ulong": 5},
             unwind_default=66,
@@ -33,23 +46,49 @@ def obligations(tier):
         for (name, ks, std) in [("session_step", [1], True), ("session", [2] if quick else [2, 3], False)]
     ]
 
-QUIT, STAT, LIST, UIDL, DELE, RETR, RSET, LAST, TOP, NOOP = range(10)
+# verb classes of session.c: 0 STAT LAST NOOP RSET DELE, 1 LIST, 2 UIDL, 3 RETR TOP, 4 QUIT (last step only:
+# a session that quits earlier is a shorter session)
+def session_grid(k):
+    import itertools
+    out = []
+    for combo in itertools.product(*([range(4)] * (k - 1) + [range(5)])):
+        g = {"K": k}
+        g.update({"C%d" % i: c for i, c in enumerate(combo)})
+        out.append(g)
+    return out
 
 def session_witnesses(p):
-    k, o = p["K"], p["ONLY"]
+    k = p["K"]
+    last = p["C%d" % (k - 1)]
     w = []
-    if o == QUIT:
-        w += ["quit", "quit_unlinks_1_renames_2", "quit_unlinks_both"] + (["dele_rset_quit_keeps_all"] if k >= 3 else [])
+    if last == 4:
+        w += ["quit", "quit_unlinks_1_renames_2", "quit_unlinks_both"]
+        if k >= 3 and p["C0"] == 0 and p["C%d" % (k - 2)] == 0:
+            w += ["dele_rset_quit_keeps_all"]
     else:
-        w += ["session_open"]
-    if o not in (QUIT, RSET):
-        w += ["both_marked_no_quit"]
-    if k >= 2 or o in (LIST, UIDL):
+        w += ["session_open", "both_marked_no_quit"]
+    if last == 0:
+        w += ["dele_twice_refused", "dele_out_of_range_refused", "dele_zero_refused", "rset_unmarks_both"]
+    if last in (1, 2):
         w += ["listing_skips_deleted"]
-    if k >= 2 or o in (RETR, TOP):
+    if last == 3:
         w += ["retr_file_vanished"]
-    if k >= 2 or o == DELE:
-        w += ["dele_twice_refused", "dele_out_of_range_refused", "dele_zero_refused"]
-    if k >= 2 or o == RSET:
-        w += ["rset_unmarks_both"]
     return w
+
+# popup: line lengths including the LF.  "user a\n" = 7, "user abc\n" = 9, "pass abc\n" = 9, "apop a b\n" = 9
+POPUP_QUICK = [{"L1": 5}, {"L1": 7}, {"L1": 9}, {"L1": 7, "L2": 7}, {"L1": 9, "L2": 9}, {"L1": 5, "L2": 7, "L3": 7}]
+POPUP_THOROUGH = [{"L1": l} for l in range(1, 13)] + [{"L1": a, "L2": b} for a in (5, 7, 9, 10) for b in (5, 7, 9, 10)] + \
+                 [{"L1": a, "L2": b, "L3": c} for a in (5, 7) for b in (5, 7) for c in (7, 8)]
+
+def popup_witnesses(p):
+    l1, l2, l3 = p["L1"], p.get("L2", 0), p.get("L3", 0)
+    w = ["end_of_input"]
+    if l1 >= 5:
+        w += ["quit", "unknown_verb"]
+    if l1 >= 9 and not l2:
+        w += ["apop", "auth_ok", "auth_failed", "child_execs_checker"]
+    if l1 >= 7 and l2 >= 7 and not l3:
+        w += ["auth_ok", "auth_failed", "pass_before_user", "child_execs_checker"]
+    if l1 == 9 and l2 == 9 and not l3:
+        w += ["user3_pass3"]
+    return sorted(set(w))
